@@ -244,7 +244,7 @@ C04a(s) == C04a_A(s)
 \* a stable Service pinned to one revision still has pods of that revision. A rollback or a newer
 \* revision requested by the user lets the native controller replace pods before the rollout
 \* controller can react; those user-induced windows are outside what the controllers can guarantee.
-UserMovedOn(s) == s.user.rolledBack \/ (s.ro.exists /\ s.ro.canaryRev # 0 /\ s.user.rev # s.ro.canaryRev)
+UserMovedOn(s) == s.user.rolledBack \/ s.user.rev >= 3
 C04b_A(s) == s.net.hasSvc /\ s.net.stableSel # 0 /\ s.wl.exists /\ ~UserMovedOn(s)
 C04b(s) == C04b_A(s) => PodsAt(s, s.net.stableSel) > 0
 
@@ -271,7 +271,7 @@ Residue(s) ==
 
 Terminal(s) ==
   /\ s.ghost.created
-  /\ s.user.rev >= 2            \* a release was requested
+  /\ (s.user.rev >= 2 \/ s.user.rolledBack)            \* a release was requested
   /\ \/ ~s.ro.exists
      \/ s.ro.phase = "Disabled"
      \/ s.ro.phase = "Healthy" /\ s.ro.reason = "Completed"
@@ -353,7 +353,7 @@ C11c(p, t, q) ==
 \* a Ready batch whose workload degraded falls back
 C11d_A(p, t, q) ==
   (/\ t.base = "br" /\ t.fault = "" /\ p.br.exists /\ q.br.exists
-   /\ p.br.phase = "Progressing" /\ p.br.bstate = "Ready" /\ p.br.partition >= 0
+   /\ p.br.phase = "Progressing" /\ p.br.bstate = "Ready" /\ p.br.partition >= 0 /\ ~p.br.deleting
    /\ p.br.hashOk /\ p.br.obsGenOk /\ p.wl.exists /\ p.wl.genOk /\ p.br.obsR = p.wl.R
    /\ p.br.stUpd = p.wl.stUpdated /\ p.br.stUpdRdy = p.wl.stUpdRdy
    /\ p.br.updRev = p.wl.updRev /\ p.br.noNeed = -1 /\ p.br.rid = p.br.obsRid
@@ -381,7 +381,7 @@ C18br(p, t, q) ==
   => (p.wl.exists => ~p.wl.ctrl)
 
 C18b(s) ==
-  (s.ghost.created /\ ~s.ro.exists /\ s.user.rev >= 2) => (Residue(s) \subseteq {"canarySvc", "canaryIng", "batchRelease"} /\ s.ghost.origOk)
+  (s.ghost.created /\ ~s.ro.exists /\ (s.user.rev >= 2 \/ s.user.rolledBack)) => (Residue(s) \subseteq {"canarySvc", "canaryIng", "batchRelease"} /\ s.ghost.origOk)
   \* objects owned through ownerReferences are collected by the garbage collector (env.gc); everything else must be clean
 
 (***************************************************************************)
@@ -422,7 +422,7 @@ StateAnte(name, s) ==
     [] name = "C04c" -> s.net.ing \/ (s.net.route /\ (s.net.rtCanaryW >= 0 \/ s.net.rtGenRules > 0))
     [] name = "C05" -> Terminal(s)
     [] name = "C10b" -> s.ro.exists /\ s.user.rolledBack /\ s.ro.phase = "Healthy" /\ s.ro.reason = "Completed" /\ s.user.rev = 1
-    [] name = "C18b" -> s.ghost.created /\ ~s.ro.exists /\ s.user.rev >= 2
+    [] name = "C18b" -> s.ghost.created /\ ~s.ro.exists /\ (s.user.rev >= 2 \/ s.user.rolledBack)
 
 StateHolds(name, s) ==
   CASE name = "C04a" -> C04a(s) [] name = "C04b" -> C04b(s) [] name = "C04c" -> C04c(s)
